@@ -84,7 +84,12 @@ def gen_race(seed, tier):
 
 def _repoint(prog):
     last_extra = None
+    last_kept = None
     for i, op in enumerate(prog):
+        if op.get("op") == "reread":
+            op["src"] = last_kept if last_kept is not None else 0
+        if op.get("op") in ("fire", "zero", "elev", "danger", "fire_tmp"):
+            last_kept = i
         if op.get("op") == "fire" and op.get("extra"):
             last_extra = i
         if op.get("op") in ("danger", "at_dist"):
@@ -266,7 +271,8 @@ def gen_history(seed, tier):
     for _ in range(2):
         w["shots"].append(simgen.gen_shot(rng, w, 0, steep_p=0.05))
         shots.append(len(w["shots"]) - 1)
-    w["ammos"].append({"dm": 0, "mv": [2650.0, "FPS"], "powder_temp": [15.0, "Celsius"], "use_ps": True})
+    w["ammos"].append({"dm": 0, "mv": [2650.0, "FPS"], "powder_temp": [15.0, "Celsius"], "use_ps": True,
+                       "temp_modifier": 0.02})
     own_ammo = len(w["ammos"]) - 1
     ncalc = 0
     b = Belief()
